@@ -290,7 +290,7 @@ func (rn *c07run) exec(exprs []*Compiled, s Step, yield func(kind, name string),
 				// the duration. The isolated baseline never does this: there the
 				// inner call gets a Ctx of its own, so outer and inner cannot
 				// interfere and the baseline shows what re-entrancy must not change.
-				f := ctx.VariableFetcher.(*SimFetcher)
+				f := simOf(ctx.VariableFetcher)
 				outer := f.E
 				f.E = ienv
 				o = next.RunCtx(ctx, ienv, ikind)
